@@ -23,7 +23,7 @@ func init() {
 			"R3 operator/punctuation recognition (for every assignment of an operator kind the matched bytes equal the kind's spelling and the number of bytes skipped equals its length; the set of kinds equals the reference list; longest match first), " +
 			"R4 comment openers/terminators, R5 the dot-identifier trigger set, R6 character classifiers of package char. " +
 			"Decides: table agreement. Does not decide: the number automaton, the prefix x quote matrix, rejection of exactly the invalid inputs (control flow over bytes).",
-		Rules: []ruleFn{ruleC14R1, ruleC14R2, ruleC14R3, ruleC14R4, ruleC14R5, ruleC14R6, ruleC14R7, ruleC14R8, ruleC14R9, ruleC14R11, ruleC14R12},
+		Rules: []ruleFn{ruleC14R1, ruleC14R2, ruleC14R3, ruleC14R4, ruleC14R5, ruleC14R6, ruleC14R7, ruleC14R8, ruleC14R9, ruleC14R11, ruleC14R12, ruleC14R13, ruleC15R6},
 	})
 }
 
@@ -1937,5 +1937,139 @@ func ruleC14R9(w *World, r *Report) {
 	}
 	if n < 1 {
 		r.errorf("expected at least one unicode.* predicate calls (skipSpaces, quote), found %d", n)
+	}
+}
+
+
+// ruleC14R13: a byte that begins an operator or a punctuation of the reference list never leads to a lexical error
+// inside consumeToken. The first byte is followed through the function with the exact domain "set of byte values"
+// (every comparison of it with a constant splits the set; other conditions do not); at each raise — a call that does
+// not return, or Kind = <bad> — the set must not contain the first byte of a reference operator. A well-meant
+// diagnostic ("stray */") in the arm of '*' rejects `2*/* c */3`.
+func ruleC14R13(w *World, r *Report) {
+	const rule = "C14/R13"
+	r.rule(rule, "in (*Lexer).consumeToken no raise (no-return call or Kind = <bad>) is reachable with the first byte of the token being the first byte of an operator/punctuation of the reference list: such a byte always yields a token; the fall-through that reports an illegal character is reached by none of them", 1)
+	fn := w.fn(w.Mem, "(*Lexer).consumeToken")
+	if fn == nil {
+		r.errorf("(*Lexer).consumeToken not found")
+		return
+	}
+	noret := w.NoReturn()
+	// the tested value: the result of a peek(0)-like call compared with the most constants
+	cmpCount := map[ssa.Value]int{}
+	for _, b := range fn.Blocks {
+		for _, in := range b.Instrs {
+			if bo, ok := in.(*ssa.BinOp); ok && (bo.Op == token.EQL || bo.Op == token.NEQ) && isByteType(bo.X.Type()) {
+				if _, isC := constInt(bo.Y); isC {
+					cmpCount[bo.X]++
+				}
+			}
+		}
+	}
+	var tag ssa.Value
+	for v, n := range cmpCount {
+		if tag == nil || n > cmpCount[tag] || (n == cmpCount[tag] && v.Name() < tag.Name()) {
+			tag = v
+		}
+	}
+	if tag == nil || cmpCount[tag] < 10 {
+		r.errorf("the dispatch on the first byte of the token was not found in consumeToken")
+		return
+	}
+	tb := tag.(ssa.Instruction).Block()
+	// forward propagation of the set of values of tag
+	type edge struct{ from, to *ssa.BasicBlock }
+	var full byteSet
+	full = full.not()
+	in := map[*ssa.BasicBlock]byteSet{}
+	reached := map[*ssa.BasicBlock]bool{tb: true}
+	in[tb] = full
+	for changed := true; changed; {
+		changed = false
+		for _, b := range fn.Blocks {
+			if !reached[b] {
+				continue
+			}
+			cur := in[b]
+			outs := make([]byteSet, len(b.Succs))
+			for i := range outs {
+				outs[i] = cur
+			}
+			if iff, ok := b.Instrs[len(b.Instrs)-1].(*ssa.If); ok {
+				if bo, ok := iff.Cond.(*ssa.BinOp); ok && bo.X == tag {
+					if k, isC := constInt(bo.Y); isC {
+						switch bo.Op {
+						case token.EQL, token.NEQ, token.LSS, token.LEQ, token.GTR, token.GEQ:
+							cs := satCmp(bo.Op, k, true)
+							outs[0], outs[1] = cur.and(cs), cur.and(cs.not())
+						}
+					}
+				}
+			}
+			for i, s := range b.Succs {
+				if s == tb {
+					continue
+				}
+				n := in[s].or(outs[i])
+				if !reached[s] || n != in[s] {
+					var zero byteSet
+					if outs[i] == zero && reached[s] {
+						continue
+					}
+					if outs[i] == zero && !reached[s] {
+						continue
+					}
+					in[s], reached[s], changed = n, true, true
+				}
+			}
+		}
+	}
+	first := map[byte]string{}
+	for _, op := range refOperators {
+		if _, dup := first[op[0]]; !dup {
+			first[op[0]] = op
+		}
+	}
+	n := 0
+	for _, b := range fn.Blocks {
+		if !reached[b] || b == tb {
+			continue
+		}
+		for _, instr := range b.Instrs {
+			what := ""
+			switch x := instr.(type) {
+			case *ssa.Call:
+				if c := x.Call.StaticCallee(); c != nil && noret[c] {
+					what = "the raise " + c.Name() + "(…)"
+				}
+			case *ssa.Panic:
+				what = "the panic"
+			case *ssa.Store:
+				if isKindBadStore(x) {
+					what = "Kind = <bad>"
+				}
+			}
+			if what == "" {
+				continue
+			}
+			n++
+			construct := fmt.Sprintf("raise %d in consumeToken", n)
+			var hit []string
+			for c := 0; c < 256; c++ {
+				if in[b][c] {
+					if op, isOp := first[byte(c)]; isOp {
+						hit = append(hit, fmt.Sprintf("%q (begins %q)", string(rune(c)), op))
+					}
+				}
+			}
+			if len(hit) > 0 {
+				r.bad(rule, construct, w.pos(instr.Pos()), what+" is reachable when the token begins with "+strings.Join(hit, ", ")+": a valid operator or punctuation is rejected depending on what follows it")
+			} else {
+				r.ok(rule, construct, w.pos(instr.Pos()), what+" is reached only with first bytes that begin no operator or punctuation")
+			}
+		}
+	}
+	if n == 0 {
+		r.errorf("no raise found in consumeToken (the illegal-character report is expected)")
 	}
 }
